@@ -1,13 +1,17 @@
-(** C06: why WriteBit(false) has to clear its bit.
+(** C06: why WriteBit(false) has to clear its bit, and where bits past [len]
+    come from.
 
     A variant of boc/bitString.go in which the [false] branch of WriteBit only
     performs the range check ("the buffer is zero-initialised, nothing to
     clear"; seeded change C06-nm1) is modelled by [write_bit_noclear]; every
     derived operation of Model/BitStringD.v is instantiated with it.  The
-    refinement theorems of Proofs/BitStringD.v then FAIL: the byte-aligned fast
-    path of ReadBits(n), n mod 8 <> 0, leaves the source's following bits in
-    the last byte of its result, and zero bits written there read back as those
-    stale bits.  Witness: source 0xBFFF (16 bits), ReadBits(1). *)
+    refinement theorems of Proofs/BitStringD.v then FAIL as soon as the buffer
+    holds a 1 past len.  Such a buffer is produced by the exported On(n) with
+    n >= len ([junk_one_reachable]) and — before the repair "fix: ReadBits clears
+    the bits past the requested length when the read cursor is byte-aligned" —
+    by the fast path of ReadBits(n), n mod 8 <> 0, which left the source's
+    following bits in the last byte of its result
+    ([read_bits_before_fix_kept_stale_bits]: source 0xBFFF, ReadBits(1)). *)
 From Coq Require Import List NArith Arith Lia Bool.
 From Tongo Require Import Lib.Bits Lib.Res Model.BitString Model.BitStringD
   Proofs.BitStringW Proofs.BitStringD.
@@ -22,8 +26,35 @@ Definition write_bit_noclear (v : bool) (s : bs) : bs * res unit :=
 Definition src_BFFF : bs := fst (write_bits (bits_of 16 49151) (new_bs 16)).
 Definition five_zeros : bs := fst (write_bits (zeros 5) (new_bs 5)).
 
-Lemma witnesses_wellformed : Inv src_BFFF /\ Inv five_zeros /\ abs five_zeros = zeros 5.
+(* the single bit 1 in an 8-bit string whose other 7 buffer bits are 0111111 *)
+Definition junk_one : bs := mkbs [true; false; true; true; true; true; true; true] 8 1 0.
+
+Lemma witnesses_wellformed :
+  Inv src_BFFF /\ Inv five_zeros /\ abs five_zeros = zeros 5 /\ Inv junk_one /\ abs junk_one = [true].
 Proof. unfold Inv. vm_compute. repeat split; lia. Qed.
+
+(* NewBitString(8); WriteBit(true); On(2) .. On(7) *)
+Lemma junk_one_reachable :
+  let s0 := fst (write_bit true (new_bs 8)) in
+  fold_left (fun s n => fst (set_bit n true s)) [2; 3; 4; 5; 6; 7]%nat s0 = junk_one.
+Proof. vm_compute. reflexivity. Qed.
+
+(** ReadBits before its repair: the aligned fast path copied whole bytes *)
+Definition read_bits_bs_before_fix (n : nat) (s : bs) : bs * res bs :=
+  if avail_read s <? n then (s, Err ENotEnoughBits)
+  else if (rcur s mod 8 =? 0)%nat then
+    if short (8 * (rcur s / 8 + nbytes n)) (buf s) then (s, Panic PSlice)
+    else (set_rcur s (rcur s + n),
+          Ok (mkbs (firstn (8 * nbytes n) (skipn (8 * (rcur s / 8)) (buf s))) n n 0))
+  else read_bits_bs n s.
+
+Theorem read_bits_before_fix_kept_stale_bits :
+  exists s' r r', read_bits_bs_before_fix 1 src_BFFF = (s', Ok r) /\
+    abs r = [true] /\ buf r = buf junk_one /\
+    (* today *)
+    read_bits_bs 1 src_BFFF = (s', Ok r') /\
+    abs r' = [true] /\ buf r' = [true; false; false; false; false; false; false; false].
+Proof. eexists _, _, _. vm_compute. repeat split. Qed.
 
 (* the non-clearing writer is indistinguishable on a clean buffer (which is
    why no unit test notices): same result as the real WriteBit whenever the
@@ -39,57 +70,46 @@ Proof.
   do 3 f_equal. clear. induction pre as [|h t IH]; cbn; [reflexivity|]. f_equal. exact IH.
 Qed.
 
-(** Append of zero bits to the result of an aligned ReadBits: the ideal list
-    would be 1 00000, the buffer reads 1 01111 *)
-Theorem append_after_aligned_read_bits_noclear_refuted :
-  exists src n zs s' r,
-    Inv src /\ Inv zs /\
-    read_bits_bs_g write_bit_noclear n src = (s', Ok r) /\ Inv r /\
+(** Append of zero bits: the ideal list would be 1 00000, the buffer reads 1 01111 *)
+Theorem append_noclear_refuted :
+  exists r zs, Inv r /\ Inv zs /\
     exists r', append_g write_bit_noclear zs r = (r', Ok tt) /\
       abs r' <> abs r ++ abs zs /\
       abs r' = [true; false; true; true; true; true].
 Proof.
-  exists src_BFFF, 1%nat, five_zeros.
-  destruct witnesses_wellformed as (I1 & I2 & _).
-  eexists _, _. split; [exact I1|]. split; [exact I2|].
-  split; [vm_compute; reflexivity|].
-  split; [unfold Inv; vm_compute; repeat split; lia|].
+  exists junk_one, five_zeros.
+  destruct witnesses_wellformed as (_ & I2 & _ & I3 & _).
+  split; [exact I3|]. split; [exact I2|].
   eexists. split; [vm_compute; reflexivity|].
   split; [vm_compute; discriminate|vm_compute; reflexivity].
 Qed.
 
 (* the same sequence with the real WriteBit obeys the ideal list *)
-Example append_after_aligned_read_bits_real :
-  exists s' r r', read_bits_bs 1 src_BFFF = (s', Ok r) /\
-    append_bs five_zeros r = (r', Ok tt) /\
+Example append_real :
+  exists r', append_bs five_zeros junk_one = (r', Ok tt) /\
     abs r' = [true; false; false; false; false; false].
-Proof. eexists _, _, _. vm_compute. repeat split. Qed.
+Proof. eexists. vm_compute. repeat split. Qed.
 
-(** WriteBit(false) / WriteUint(0,k) directly into a Copy that was grown:
-    Copy keeps the stale bits, so the same failure *)
+(** WriteBit(false) / WriteUint(0,k) directly into a Copy: Copy keeps the junk *)
 Theorem write_zeros_into_copy_noclear_refuted :
-  exists s' r,
-    read_bits_bs_g write_bit_noclear 3 src_BFFF = (s', Ok r) /\
-    let c := grow 4 (copy_bs r) in
-    Inv c /\
-    abs (fst (write_bits_g write_bit_noclear (bits_of 4 0) c)) <> abs c ++ bits_of 4 0 /\
-    abs (fst (write_bits (bits_of 4 0) c)) = abs c ++ bits_of 4 0.
+  let c := copy_bs junk_one in
+  Inv c /\
+  abs (fst (write_bits_g write_bit_noclear (bits_of 4 0) c)) <> abs c ++ bits_of 4 0 /\
+  abs (fst (write_bits (bits_of 4 0) c)) = abs c ++ bits_of 4 0.
 Proof.
-  eexists _, _. split; [vm_compute; reflexivity|]. cbv zeta.
+  cbv zeta.
   split; [unfold Inv; vm_compute; repeat split; lia|].
   split; [vm_compute; discriminate|vm_compute; reflexivity].
 Qed.
 
 (** ToFiftHex of the single bit 1: "F_" instead of "C_"; and F_ parses to 111 *)
 Theorem to_fift_noclear_refuted :
-  exists s' r,
-    read_bits_bs_g write_bit_noclear 1 src_BFFF = (s', Ok r) /\ Inv r /\
-    abs r = [true] /\
-    to_fift_bs_g write_bit_noclear r = Ok ([15%N], true) /\
-    to_fift (abs r) = ([12%N], true) /\
-    from_fift [15%N] true = Some [true; true; true].
+  Inv junk_one /\ abs junk_one = [true] /\
+  to_fift_bs_g write_bit_noclear junk_one = Ok ([15%N], true) /\
+  to_fift (abs junk_one) = ([12%N], true) /\
+  to_fift_bs junk_one = Ok ([12%N], true) /\
+  from_fift [15%N] true = Some [true; true; true].
 Proof.
-  eexists _, _. split; [vm_compute; reflexivity|].
   split; [unfold Inv; vm_compute; repeat split; lia|].
   vm_compute. repeat split.
 Qed.
@@ -97,11 +117,9 @@ Qed.
 (** GetTopUppedArray (the bytes that are hashed / serialised for a cell): the
     padding after the completion tag is not zero *)
 Theorem top_upped_noclear_refuted :
-  exists s' r,
-    read_bits_bs_g write_bit_noclear 1 src_BFFF = (s', Ok r) /\
-    top_upped_g write_bit_noclear (grow 7 r) = Ok [255%N] /\
-    top_upped (grow 7 r) = Ok [192%N].
-Proof. eexists _, _. vm_compute. repeat split. Qed.
+  top_upped_g write_bit_noclear junk_one = Ok [255%N] /\
+  top_upped junk_one = Ok [192%N].
+Proof. vm_compute. repeat split. Qed.
 
 (** so the general statement is false for the non-clearing writer ... *)
 Theorem writers_any_junk_noclear_refuted :
@@ -183,4 +201,40 @@ Proof.
   split; [unfold Inv; vm_compute; repeat split; lia|].
   split; [apply Inv_new|].
   repeat split; vm_compute; reflexivity.
+Qed.
+
+(** ** NextRef has to stop at cursor 4
+
+    Variant (seeded change C06-r4m1) whose guard is [refCursor > 4] ("at most 4
+    refs" read as the bound of the cursor instead of the index): on a FULL
+    cell, after the 4 references have been read, one more NextRef indexes
+    refs[4] of the [4]*Cell array and panics instead of ErrNotEnoughRefs.  On a
+    cell with fewer than 4 references the nil-slot test behind the guard still
+    answers, so the variant is indistinguishable there. *)
+From Tongo Require Import Model.CellRefs.
+
+Definition next_ref_guard4 : heap -> nat -> heap * res nat :=
+  next_ref_g (fun rc => (4 <? rc)%nat).
+
+Definition full_heap : heap :=
+  [mkcc (new_bs 8) [1; 2; 3; 4]%nat 0; new_cell; new_cell; new_cell; new_cell].
+
+Theorem next_ref_guard4_refuted :
+  exists h', next_refs_g next_ref_guard4 4 full_heap 0 [] = (h', Ok [1; 2; 3; 4]%nat) /\
+    next_ref_guard4 h' 0 = (h', Panic PIndex) /\
+    next_ref h' 0 = (h', Err ENotEnoughRefs).
+Proof.
+  eexists. split; [vm_compute; reflexivity|].
+  split; vm_compute; reflexivity.
+Qed.
+
+(* CopyRemaining is built on NextRef but never steps past the last reference *)
+Lemma next_ref_guard4_same_below_4 h i :
+  (crc (hget h i) <= length (crefs (hget h i)))%nat ->
+  (length (crefs (hget h i)) < 4)%nat ->
+  next_ref_guard4 h i = next_ref h i.
+Proof.
+  intros Hrc Hlen. unfold next_ref_guard4, next_ref, next_ref_g.
+  destruct (Nat.ltb_spec 4 (crc (hget h i))), (Nat.ltb_spec 3 (crc (hget h i)));
+    try reflexivity; lia.
 Qed.
